@@ -211,6 +211,17 @@ def sec_categorical(ck, K, quick_extra):
              replay=judge_replay(trs, Sx, ix.uf_apps, lambda o_, i_: jidx(o_, i_, "mode")))
     ck.prove(f"categorical.mask.sample_allowed@K={K}", asx, conj([allowed_idx(ox["sample"][()], mx), allowed_idx(ox["sample2"][()], mx)]),
              replay=judge_replay(trs, Sx, ix.uf_apps, lambda o_, i_: (jidx(o_, i_, "sample")[0] or jidx(o_, i_, "sample2")[0], jidx(o_, i_, "sample")[1])))
+    if K <= 3:
+        # the same two obligations with float32 underflow of exp modelled (exp(x) = 0 for x <= -105): logit gaps above ~100 are legitimate inputs
+        iu = XRInterp(exp_underflow=True)
+        Su = trs.symbols(iu)
+        ou = trs.run(iu, Su)
+        lu, mu = list(Su["l"]), list(Su["m"])
+        asu = [disj(mu)] + stubs.contracts(iu)
+        ck.prove(f"categorical.mask.mode_allowed@K={K},exp-underflow", asu, allowed_idx(ou["mode"][()], mu),
+                 replay=judge_replay(trs, Su, iu.uf_apps, lambda o_, i_: jidx(o_, i_, "mode")))
+        ck.prove(f"categorical.mask.sample_allowed@K={K},exp-underflow", asu, conj([allowed_idx(ou["sample"][()], mu), allowed_idx(ou["sample2"][()], mu)]),
+                 replay=judge_replay(trs, Su, iu.uf_apps, lambda o_, i_: (jidx(o_, i_, "sample")[0] or jidx(o_, i_, "sample2")[0], jidx(o_, i_, "sample")[1])))
     if quick_extra:
         um = 0
         for j in range(1, K):   # argmax of the unmasked logits
